@@ -61,8 +61,7 @@ type Ctx struct {
 	Prog      *ssa.Program
 	SSA       map[string]*ssa.Package // by package path
 	AllFuncs  map[*ssa.Function]bool  // every function with a body in repo packages (incl. closures)
-	aliasFrom string
-	aliasTo   string
+	aliases   [][2]string // stack of active rule-id renamings (from-prefix, to-prefix), innermost last
 	Obls      []*Obligation
 	oblIndex  map[string]*Obligation
 	Notes     []string
@@ -229,10 +228,21 @@ func FuncName(f *ssa.Function) string {
 // alias: while aliasFrom is set, rule ids starting with it are renamed (a property's check can run
 // another property's rules as its own premises, under its own rule ids and floors).
 func (c *Ctx) alias(id string) string {
-	if c.aliasFrom != "" && strings.HasPrefix(id, c.aliasFrom) {
-		return c.aliasTo + strings.TrimPrefix(id, c.aliasFrom)
+	for i := len(c.aliases) - 1; i >= 0; i-- {
+		if a := c.aliases[i]; strings.HasPrefix(id, a[0]) {
+			id = a[1] + strings.TrimPrefix(id, a[0])
+		}
 	}
 	return id
+}
+
+// pushAlias / popAlias bracket a call of another property's rule functions: rule ids starting with
+// `from` are recorded as `to`+rest. Brackets nest (the innermost renaming applies first).
+func (c *Ctx) pushAlias(from, to string) { c.aliases = append(c.aliases, [2]string{from, to}) }
+func (c *Ctx) popAlias() {
+	if n := len(c.aliases); n > 0 {
+		c.aliases = c.aliases[:n-1]
+	}
 }
 
 func (c *Ctx) Rule(id, text string, floor int) {
